@@ -197,6 +197,23 @@ theorem one_char_switch_word_is_soft (env : Env) (c : Char) (hu : env.getValue "
 
 /-! ## Switch modifiers -/
 
+def vacancyName : Vacancy → String
+  | .unset => "Unset" | .emptyScalar => "EmptyScalar" | .valuelessArray => "ValuelessArray" | .emptyValueArray => "EmptyValueArray"
+
+def valueConditionName : ValueCondition → String
+  | .occupied => "Occupied"
+  | .vacant v => "Vacant:" ++ vacancyName v
+
+/-- `ValueCondition::with` of the code — evaluated from param/switch.rs on every run, on every pair (condition,
+    vacancy), whatever the grouping of its match arms — IS the model's `ValueCondition.with_`. -/
+theorem value_condition_table_agrees :
+    Generated.ExpansionTables.valueConditionTable =
+      ([(SwCond.unset, "Unset"), (SwCond.unsetOrEmpty, "UnsetOrEmpty")].flatMap fun c =>
+        ([(none, "None"), (some Vacancy.unset, "Unset"), (some .emptyScalar, "EmptyScalar"),
+          (some .valuelessArray, "ValuelessArray"), (some .emptyValueArray, "EmptyValueArray")].map fun v =>
+          (c.2, v.2, valueConditionName (ValueCondition.with_ c.1 v.1)))) := by
+  decide
+
 /-- ★ The decision taken by `switch::apply` is the entry of the XCU 2.6.2 table, for every action,
     with and without colon, and every vacancy class of the value (the quantifier is finite: the
     whole table is checked by case analysis). -/
